@@ -524,8 +524,24 @@ pub fn eval_unit_name(
                     left_value.pow(right as i32),
                 ))
             }
-            BinOpType::ShiftL => todo!(),
-            BinOpType::ShiftR => todo!(),
+            BinOpType::ShiftL | BinOpType::ShiftR => {
+                let (left_unit, left) = eval_unit_name(ctx, &binop.left)?;
+                let right = match eval_expr(ctx, &binop.right)? {
+                    Value::Number(num) => num,
+                    _ => {
+                        return Err(QueryError::generic(
+                            "Shift amounts must be numbers".to_string(),
+                        ))
+                    }
+                };
+                let left = Number::new(left);
+                let res = if binop.op == BinOpType::ShiftL {
+                    left.shl(&right)
+                } else {
+                    left.shr(&right)
+                };
+                Ok((left_unit, res.map_err(QueryError::generic)?.value))
+            }
             BinOpType::Mod => {
                 let (left_unit, left) = eval_unit_name(ctx, &binop.left)?;
                 let (right_unit, right) = eval_unit_name(ctx, &binop.right)?;
